@@ -156,10 +156,13 @@ def main_transitions(rep, f, c, sink):
                 guards.append('empty' if e[2] else '!empty')
             elif ce == LAST:
                 guards.append('last' if e[2] else '!last')
-            elif ce[0] == 'bin' and ce[1] == 'Ge' and N(ce[2]) == 'o' and ce[3] == ('len', SRC):
-                guards.append('end' if e[2] else '!end')
-            elif ce[0] == 'bin' and ce[1] == 'Lt' and N(ce[2]) == 'o' and ce[3] == ('len', SRC):
-                guards.append('!end' if e[2] else 'end')
+            elif ce[0] == 'bin' and ce[1] in ('Ge', 'Lt', 'Le', 'Gt') and N(ce[2]) == 'o' and ce[3] == ('len', SRC) and ce[1] in ('Ge', 'Lt'):
+                guards.append('end' if e[2] == (ce[1] == 'Ge') else '!end')
+            elif ce[0] == 'bin' and ce[1] in ('Le', 'Gt') and N(ce[3]) == 'o' and ce[2] == ('len', SRC):
+                # len <= o  /  len > o
+                guards.append('end' if e[2] == (ce[1] == 'Le') else '!end')
+            elif ce[0] == 'bin' and ce[1] in ('Eq', 'Ne') and {ce[2], ce[3]} == {('len', SRC), C(0)}:
+                guards.append('empty' if e[2] == (ce[1] == 'Eq') else '!empty')
             elif ce[0] == 'bin' and ce[1] in ('Eq', 'Ne') and ce[2][0] == 'idx' and strip_ref(ce[2][1]) == SRC and N(ce[2][2]) == 'o' and ce[3][0] == 'c':
                 t = e[2] if ce[1] == 'Eq' else (not e[2])
                 guards.append('%ssrc[o]=%X' % ('' if t else '!', ce[3][1]))
@@ -255,6 +258,72 @@ def norm_effects(t):
     return (s, g, tuple(sorted(e)), end)
 
 
+def parse_guard(g):
+    """guard string -> (atom, kind, values): kind 'is' (bool atom, values = truth) / 'in' / 'notin' (byte atoms)"""
+    import re as _re
+    neg = g.startswith('!')
+    body_ = g[1:] if neg else g
+    if body_ in ('empty', 'last', 'end'):
+        return (body_, 'is', not neg)
+    m = _re.match(r'src\[(o|0)\]=([0-9A-F]+)$', body_)
+    if m:
+        return ('src[%s]' % m.group(1), 'notin' if neg else 'in', frozenset([int(m.group(2), 16)]))
+    m = _re.match(r'src\[(o|0)\] not in \{([0-9A-F,]*)\}$', body_)
+    if m and not neg:
+        return ('src[%s]' % m.group(1), 'notin', frozenset(int(x, 16) for x in m.group(2).split(',') if x))
+    m = _re.match(r'encoding!=(\w+)$', body_)
+    if m:
+        return ('encoding!=' + m.group(1), 'is', not neg)
+    # anything else is a free boolean atom: if the outcome really depends on it, no reference transition will agree on both sides
+    if g.startswith('?') and g.endswith(('=True', '=False')):
+        return (g.rsplit('=', 1)[0], 'is', g.endswith('=True'))
+    return (g, 'is', True)
+
+
+def holds(lit, val):
+    atom, kind, v = lit
+    x = val[atom]
+    if kind == 'is':
+        return x == v
+    if kind == 'in':
+        return x in v
+    return x not in v
+
+
+def decision_table(ref_s, got_s):
+    """Compare two sets of guarded transitions of one state as functions of the atoms they mention.
+    -> list of (ref transition, valuation, got outcomes) that disagree"""
+    import itertools
+    R_ = [([parse_guard(g) for g in t[1]], t) for t in ref_s]
+    G_ = [([parse_guard(g) for g in t[1]], t) for t in got_s]
+    dom = {}
+    for lits, _ in R_ + G_:
+        for atom, kind, v in lits:
+            if kind == 'is':
+                dom.setdefault(atom, set()).update([True, False])
+            else:
+                dom.setdefault(atom, set()).update(v)
+                dom[atom].add('other')
+    atoms = sorted(dom)
+    bad = []
+    n = 0
+    for combo in itertools.product(*[sorted(dom[a], key=str) for a in atoms]):
+        val = dict(zip(atoms, combo))
+        # a byte that does not exist cannot be looked at: keep one representative of those valuations
+        if val.get('end') is True and 'src[o]' in val and val['src[o]'] != 'other':
+            continue
+        if val.get('empty') is True and 'src[0]' in val and val['src[0]'] != 'other':
+            continue
+        rs = [t for lits, t in R_ if all(holds(l, val) for l in lits)]
+        if len(rs) != 1:
+            continue          # the reference does not define this combination (or the atom is foreign to it and split it)
+        gs = {(t[2], t[3]) for lits, t in G_ if all(holds(l, val) for l in lits)}
+        n += 1
+        if gs != {(rs[0][2], rs[0][3])}:
+            bad.append((rs[0], val, sorted(gs)))
+    return bad, n
+
+
 def d1_main(rep, f, c):
     ref = {norm_effects(t) for t in reference_main()}
     for sink in ('utf8', 'utf16'):
@@ -265,19 +334,28 @@ def d1_main(rep, f, c):
         got = {norm_effects(t) for t in got}
         b = f.body(fn)
         site = sp_str(b.raw['span'])
-        for t in sorted(ref - got):
-            rep.ob('C10-D1.transition', '%s:%s%s' % (fn, t[0], list(t[1])), False,
-                   'reference transition missing: in %s under %s expected effects %s then `%s`; implementation has %s' % (
-                       t[0], list(t[1]) or 'any input', list(t[2]), t[3],
-                       [(list(x[2]), x[3]) for x in got if x[0] == t[0] and x[1] == t[1]] or 'no transition with this guard'), site, None, c)
-        for t in sorted(got - ref):
-            if any(r[0] == t[0] and r[1] == t[1] for r in ref - got):
-                continue   # already reported as a mismatch of the same (state, guard)
-            rep.ob('C10-D1.transition', '%s:%s%s' % (fn, t[0], list(t[1])), False,
-                   'transition not in the reference automaton: %s under %s does %s then `%s`' % (t[0], list(t[1]), list(t[2]), t[3]), site, None, c)
-        for t in sorted(ref & got):
-            rep.ob('C10-D1.transition', '%s:%s%s' % (fn, t[0], list(t[1])), True, '', site, {'effects': list(t[2]), 'then': t[3]}, c)
-        rep.floor('C10-D1.transition', 'transitions matched (%s)' % sink, len(ref & got), len(ref), c)
+        states = sorted({t[0] for t in ref})
+        ncomb = 0
+        failed = {}
+        for st in states:
+            bad, n = decision_table([t for t in ref if t[0] == st], [t for t in got if t[0] == st])
+            ncomb += n
+            for rt, val, gs in bad:
+                failed.setdefault(rt, (val, gs))
+        for t in sorted(ref):
+            if t in failed:
+                val, gs = failed[t]
+                rep.ob('C10-D1.transition', '%s:%s%s' % (fn, t[0], list(t[1])), False,
+                       'reference transition not implemented: in %s under %s expected effects %s then `%s`; for %s the implementation does %s' % (
+                           t[0], list(t[1]) or 'any input', list(t[2]), t[3],
+                           {k_: (('%X' % v_) if isinstance(v_, int) and not isinstance(v_, bool) else v_) for k_, v_ in val.items()},
+                           [(list(e_), en_) for e_, en_ in gs] or 'nothing (no path)'), site, None, c)
+            else:
+                rep.ob('C10-D1.transition', '%s:%s%s' % (fn, t[0], list(t[1])), True, '', site, {'effects': list(t[2]), 'then': t[3]}, c)
+        for st in sorted({t[0] for t in got} - set(states)):
+            rep.ob('C10-D1.transition', '%s:%s' % (fn, st), False, 'life-cycle state %s is not in the reference automaton' % st, site, None, c)
+        rep.count('c10.decision-table-rows:%s:%s' % (sink, c), ncomb)
+        rep.floor('C10-D1.transition', 'decision-table rows compared (%s)' % sink, ncomb, 40, c)
 
 
 # ---------------------------------------------------------------- helper functions
